@@ -250,7 +250,9 @@ func (iter *DBIterator) materialize(src *kv.Entry) bool {
 	if iter == nil || src == nil {
 		return false
 	}
-	if src.IsDeletedOrExpired() {
+	// Tombstones read back from a memtable or an SST carry an empty, non-nil value:
+	// IsDeletedOrExpired (Value == nil) does not recognise them, the delete bit does.
+	if src.IsDeletedOrExpired() || src.Meta&kv.BitDelete > 0 {
 		return false
 	}
 	iter.entry = *src
